@@ -210,6 +210,55 @@ pub fn big_line_case(max_lines: usize) -> BoxedStrategy<TextCase> {
         .boxed()
 }
 
+/// 101..=max lines that are (almost) all distinct: exercises the integer mapping with many ids
+pub fn distinct_line_case(max_lines: usize) -> BoxedStrategy<TextCase> {
+    use proptest::collection::vec;
+    (vec(0u32..1_000_000, 101..=max_lines), vec((0u8..4, any::<u16>(), 0u32..1_000_000), 0..=8), any::<bool>(), 0u8..3, any::<bool>(), 0u8..8)
+        .prop_map(|(a, es, unrelated, alg, bytes, opt)| {
+            let mut b: Vec<u32> = if unrelated { a.iter().map(|x| x.wrapping_mul(7).wrapping_add(3) % 1_000_003 + 1_000_000).collect() } else { a.clone() };
+            for (kind, at, val) in es {
+                let n = b.len();
+                if n == 0 {
+                    break;
+                }
+                let p = pos(at, n - 1);
+                match kind {
+                    0 => {
+                        b.remove(p);
+                    }
+                    1 => b.insert(p, val + 2_000_000),
+                    2 => b[p] = val + 2_000_000,
+                    _ => {
+                        let x = b[p];
+                        b.insert(p, x);
+                    }
+                }
+            }
+            let render = |v: &[u32]| BStr(v.iter().map(|x| format!("row {}\n", x)).collect::<String>().into_bytes());
+            // LCS keeps a quadratic table: keep it out of the biggest cases
+            let alg = if alg == 2 && a.len() > 160 { 0 } else { alg };
+            TextCase { old: render(&a), new: render(&b), tok: 0, alg, bytes, opt }
+        })
+        .boxed()
+}
+
+/// fixed huge line texts: more than 65 536 distinct lines (ids beyond 16 bits)
+pub fn huge_line_cases() -> Vec<TextCase> {
+    let mut out = vec![];
+    let line = |i: usize| format!("record {:07}\n", i);
+    let old: String = (0..70_000).map(line).collect();
+    let mut new_lines: Vec<String> = (0..70_000).map(line).collect();
+    new_lines[65_537] = line(1);
+    new_lines.remove(30_000);
+    new_lines.insert(12, "inserted\n".to_string());
+    out.push(TextCase { old: BStr(old.clone().into_bytes()), new: BStr(new_lines.concat().into_bytes()), tok: 0, alg: 0, bytes: false, opt: 3 });
+    // 40 000 lines, then the same 40 000 followed by 30 000 new distinct ones (70 000 ids)
+    let a: String = (0..40_000).map(line).collect();
+    let b: String = (0..40_000).map(line).chain((0..30_000).map(|i| format!("other {:07}\n", i))).collect();
+    out.push(TextCase { old: BStr(a.into_bytes()), new: BStr(b.into_bytes()), tok: 0, alg: 1, bytes: true, opt: 0 });
+    out
+}
+
 pub fn line_case(max_lines: usize, invalid: bool) -> BoxedStrategy<TextCase> {
     (line_text_pair(max_lines, invalid), 0u8..3, any::<bool>(), 0u8..8)
         .prop_map(move |((old, new), alg, bytes, opt)| TextCase { old, new, tok: 0, alg, bytes: bytes || invalid, opt })
